@@ -33,7 +33,7 @@ TIERS = {
     'quick': {'workers': 8, 'cases': 750, 'timeout': 600},
     'thorough': {'workers': 16, 'cases': 7000, 'timeout': 3000},
 }
-REQUIRED_BUCKETS = ['search:package-moved-on-python-path', 'search:namespace-directory-on-python-path', 'tree:depth3+', 'tree:file-included-twice', 'tree:same-include-twice-in-one-text', 'tree:fanout2+', 'conflict:before-include', 'conflict:after-include', 'conflict:between-includes',
+REQUIRED_BUCKETS = ['locations:registered-relative-to-cwd', 'search:package-moved-on-python-path', 'search:namespace-directory-on-python-path', 'tree:depth3+', 'tree:file-included-twice', 'tree:same-include-twice-in-one-text', 'tree:fanout2+', 'conflict:before-include', 'conflict:after-include', 'conflict:between-includes',
                     'search:first-location-wins', 'search:later-location', 'search:reader-order-decides', 'search:memory-reader', 'search:absolute-name',
                     'search:package-slash', 'search:package-dot', 'missing:include', 'missing:top-level', 'imports:per-file', 'entry:parse_config_file',
                     'entry:files_and_bindings', 'entry:parse_config-with-include', 'finalize:true', 'finalize:false', 'finalize:default', 'extra-bindings:none', 'extra-bindings:empty-list', 'extra-bindings:empty-string', 'extra-bindings:string', 'unknown:raises', 'unknown:skipped', 'unknown:skipped-by-list', 'unknown:in-included-file', 'unknown:raises-not-in-list',
@@ -198,7 +198,8 @@ def iter_cases(ctx, rng, n):
           dirs[fid] = ['abs']
         else:
           dirs[fid] = sorted(rng.sample(range(nloc + 1), rng.randrange(1, nloc + 2)))
-    yield {'files': files, 'nloc': nloc, 'nread': nread, 'place': place, 'loc_seq': loc_seq, 'dirs': dirs,
+    rel_locs = [l for l in range(nloc) if rng.random() < 0.5] if rng.random() < 0.3 else []
+    yield {'files': files, 'nloc': nloc, 'nread': nread, 'place': place, 'loc_seq': loc_seq, 'dirs': dirs, 'rel_locs': rel_locs,
            'missing': missing, 'entry': entry, 'shape': shape,
            'finalize': rng.random() < 0.5, 'unknown': unknown,
            'unknown_in': rng.choice(holders) if holders else '0', 'twice': state['twice'], 'same_text_twice': state['same_text_twice'],
@@ -253,6 +254,10 @@ class World:
     for l in range(case['nloc']):
       d = os.path.join(self.base, 'L%d' % (l + 1))
       os.makedirs(d)
+      # some locations are registered the way a program started in its project directory does it: relative to the current directory
+      # (what the readers are asked for is then that relative prefix joined with the name)
+      if l in case.get('rel_locs', ()):
+        d = os.path.relpath(d, self.cwd)
       self.locs.append(d)
     for l in case['loc_seq']:                          # the registrations, in order; a location may be registered more than once
       gin.add_config_file_search_path(self.locs[l])
@@ -675,6 +680,8 @@ def _run(ctx, case, w, gin, gc):
     ctx.bucket('locations:cwd-re-registered')
   if case['nloc'] >= 2:
     ctx.bucket('locations:3+')
+  if case.get('rel_locs'):
+    ctx.bucket('locations:registered-relative-to-cwd')
   if case['nread'] == 2:
     ctx.bucket('readers:2')
   if any(case['decorator']):
